@@ -57,6 +57,7 @@ type c15Anchors struct {
 	helperNode         *types.Var
 	replacer           *kit.Func // function (literal) that holds the map accesses
 	replacerOuter      map[*kit.Func]bool
+	replHelpers        []*kit.Func // same-package helpers of the replacer that look up / generate ids
 	exportSet          []*kit.Func
 }
 
@@ -299,12 +300,10 @@ func c15Find(c *kit.Ctx) *c15Anchors {
 	if a.helper == nil {
 		c.Fatalf("recursive export helper (takes *data.NodeEdgeChildren, calls itself) not reachable from %s", a.exporter.Name)
 	}
-	// replacer: a function whose own body indexes a map[string]string and generates uuids
-	for _, f := range funcs {
-		if f.Body == nil {
-			continue
-		}
-		hasMap, hasUUID, hasNEC := false, false, false
+	// replacer: a self-recursive function on a *NodeEdgeChildren that — itself or
+	// through same-package helpers (depth <= 2) — indexes a map[string]string
+	// and generates uuids
+	own := func(f *kit.Func) (hasMap, hasUUID bool) {
 		ast.Inspect(f.Body, func(n ast.Node) bool {
 			switch x := n.(type) {
 			case *ast.FuncLit:
@@ -320,24 +319,90 @@ func c15Find(c *kit.Ctx) *c15Anchors {
 			}
 			return true
 		})
+		return
+	}
+	for _, f := range funcs {
+		if f.Body == nil {
+			continue
+		}
+		hasNEC, rec := false, false
 		for _, p := range f.Params() {
 			if _, isPtr := p.Type().(*types.Pointer); isPtr && c15IsNEC(p.Type()) {
 				hasNEC = true
 			}
 		}
-		if hasMap && hasUUID && hasNEC {
+		if !hasNEC {
+			continue
+		}
+		for _, call := range f.AllCalls(false) {
+			if f.CalleeFunc(call) == f {
+				rec = true
+			}
+		}
+		if !rec {
+			continue
+		}
+		hasMap, hasUUID := own(f)
+		var helpers []*kit.Func
+		seen := map[*kit.Func]bool{f: true}
+		frontier := []*kit.Func{f}
+		for depth := 0; depth < 2; depth++ {
+			var next []*kit.Func
+			for _, g := range frontier {
+				for _, call := range g.AllCalls(false) {
+					cf := g.CalleeFunc(call)
+					if cf == nil || cf.Body == nil || cf.Pkg != f.Pkg || seen[cf] || cf.Lit != nil {
+						continue
+					}
+					seen[cf] = true
+					m, u := own(cf)
+					if m || u {
+						helpers = append(helpers, cf)
+						hasMap, hasUUID = hasMap || m, hasUUID || u
+					}
+					next = append(next, cf)
+				}
+			}
+			frontier = next
+		}
+		if hasMap && hasUUID {
 			if a.replacer != nil {
 				c.Fatalf("two id replacers: %s and %s", a.replacer.Name, f.Name)
 			}
-			a.replacer = f
+			a.replacer, a.replHelpers = f, helpers
 		}
 	}
 	if a.replacer == nil {
-		c.Fatalf("id replacer (map[string]string lookups, uuid generation, *data.NodeEdgeChildren parameter) not found in package client")
+		c.Fatalf("id replacer (self-recursive, *data.NodeEdgeChildren parameter, map[string]string lookups and uuid generation in it or its helpers) not found in package client")
 	}
-	// functions through which the replacer is entered: its enclosing functions
+	// functions through which the replacer is entered: its enclosing functions and
+	// the functions on a *NodeEdgeChildren that call one of them
 	for f := a.replacer; f != nil; f = f.Outer {
 		a.replacerOuter[f] = true
+	}
+	for changed := true; changed; {
+		changed = false
+		for _, f := range funcs {
+			if f.Body == nil || a.replacerOuter[f] || f.Lit != nil {
+				continue
+			}
+			hasNEC := false
+			for _, p := range f.Params() {
+				if _, isPtr := p.Type().(*types.Pointer); isPtr && c15IsNEC(p.Type()) {
+					hasNEC = true
+				}
+			}
+			if !hasNEC {
+				continue
+			}
+			for _, call := range f.AllCalls(false) {
+				if cf := f.CalleeFunc(call); cf != nil && a.replacerOuter[cf] {
+					a.replacerOuter[f] = true
+					changed = true
+					break
+				}
+			}
+		}
 	}
 	return a
 }
